@@ -34,7 +34,7 @@ DEDICATED = ('xdoctest.checker.GotWantException', 'xdoctest.checker.ExtractGotRe
 
 
 def run(ctx):
-    for fn in (r1_escape_return_mode, r2_user_code_calls, r3_fail_store_leaves_loop, r4_render_index, r5_runner_policy, r6_plugin_render):
+    for fn in (r1_escape_return_mode, r2_user_code_calls, r3_fail_store_leaves_loop, r4_render_index, r5_runner_policy, r6_plugin_render, r7_render_raises):
         ctx.rep.rule(fn, ctx)
 
 
@@ -566,6 +566,78 @@ def r6_plugin_render(ctx):
 
 
 # ---------------------------------------------------------------------------
+# explicit raises inside the functions the report is rendered with: each confirmed by reading, one reason per entry
+ACCEPTED_RENDER_RAISES = {
+    ('xdoctest.checker.GotWantException.output_difference', "raise ValueError('Invalid difflib option')"):
+        'infeasible: reached only when _do_a_fancy_diff(runstate) is true, which implies one of the three REPORT_* flags tested just above, on the same run state',
+    ('xdoctest.utils.util_str.ensure_unicode', "raise ValueError('unknown input type {!r}'.format(text))"):
+        'the argument is the str produced by normalize()',
+    ('xdoctest.doctest_example.DocTest.cmdline', 'raise KeyError(self.mode)'):
+        'mode is only ever set to "pytest" (constructor default) or "native" (runner)',
+}
+RENDER_STOP = {'xdoctest.doctest_example.DocTest._parse'}
+
+
+def render_closure(ctx):
+    """functions the failure report is rendered with: precisely resolved callees of DocTest.repr_failure (property
+    getters of DocTest read there included); the lazy _parse() is excluded (parts exist once a run recorded a failure)"""
+    top = ctx.func(REPR)
+    seen = {}
+    work = [top]
+    props = {m.name: m for m in top.cls.methods.values() if 'property' in [d.id for d in m.node.decorator_list if isinstance(d, ast.Name)]}
+    while work:
+        fn = work.pop()
+        if fn.qualname in seen or fn.qualname in RENDER_STOP or fn.module.name == 'xdoctest._tokenize':
+            continue
+        seen[fn.qualname] = fn
+        # only code that is reachable once branches on local constants are decided (e.g. `FLAG = False; if FLAG:`)
+        g = ctx.cfg(fn)
+        live = graph.reachable([g.entry], efilter=graph.const_branch_filter(ctx.rd(fn)))
+        live_ast = []
+        for n in live:
+            if n.kind in ('stmt', 'test', 'for_init') and isinstance(n.ast, ast.AST) and not isinstance(n.ast, (ast.FunctionDef, ast.AsyncFunctionDef, ast.ClassDef)):
+                live_ast.append(n.ast)
+            elif n.kind == 'with_enter':
+                live_ast.append(n.ast.context_expr)
+        for c in (x for a in live_ast for x in ast.walk(a)):
+            if isinstance(c, ast.Call):
+                r = ctx.res.resolve_call(fn, c)
+                if r[0] == 'repo':
+                    work.extend(r[1])
+                elif r[0] == 'class':
+                    m = ctx.prog.find_method(r[1], '__init__')
+                    if m:
+                        work.append(m)
+            elif isinstance(c, ast.Attribute) and isinstance(c.ctx, ast.Load) and is_name(c.value, 'self') and c.attr in props and fn.cls is top.cls:
+                work.append(props[c.attr])
+            elif isinstance(c, ast.Attribute) and c.attr in ('output_difference', 'output_repr_difference'):
+                for m in ctx.res._methods_by_name.get(c.attr, []):
+                    work.append(m)
+    return seen
+
+
+def r7_render_raises(ctx):
+    rep = ctx.rep
+    clo = render_closure(ctx)
+    rep.floor('C09.R7', 'functions in the rendering closure', len(clo), 8)
+    rep.note('render_closure', sorted(clo))
+    n = 0
+    for q, fn in sorted(clo.items()):
+        g = ctx.cfg(fn)
+        live = graph.reachable([g.entry], efilter=graph.const_branch_filter(ctx.rd(fn)))
+        for r in [x.ast for x in live if x.kind == 'stmt' and isinstance(x.ast, ast.Raise) and not x.dup]:
+            if isinstance(r, ast.Raise) and r.exc is not None:
+                n += 1
+                txt = ' '.join(ast.unparse(r).split())
+                reason = ACCEPTED_RENDER_RAISES.get((q, txt))
+                rep.ob('C09.R7', ctx.loc(fn, r), txt, reason is not None,
+                       'accepted: %s' % reason if reason else
+                       'an explicit raise lies on the path that renders a recorded failure: when it is reached the report cannot be rendered (the native summary aborts, INTERNALERROR under pytest)',
+                       nontrivial=False, anchor=q)
+    rep.note('explicit_raises_in_render_closure', n)
+
+
+# ---------------------------------------------------------------------------
 from ..selftest import fire, silent      # noqa: E402
 
 DE = 'xdoctest/doctest_example.py'
@@ -613,6 +685,10 @@ VARIANTS = [
     fire('revert-fix-F4-int-parse', 'C09.R4',
          (DE, " and is_frame_line:\n", ":\n")),
     fire('partfilename-none-guard-dropped', 'C09.R4', (DE, "if self._partfilename is not None and self._partfilename in line and is_frame_line:", "if is_frame_line and self._partfilename in line:")),
+    fire('revert-fix-F12-impossible-state', 'C09.R7',
+         (CK, "                # a <BLANKLINE> marker) while the got does not.\n", "                # a <BLANKLINE> marker) while the got does not.\n                raise AssertionError('impossible state')\n")),
+    fire('new-raise-in-render-path', 'C09.R7',
+         (DE, "        fail_offset = self.failed_line_offset()\n", "        fail_offset = self.failed_line_offset()\n        if fail_offset is None:\n            raise RuntimeError('no failure offset')\n")),
     silent('bounds-test-other-form',
            (DE, "                            if 0 < tb_lineno <= len(orig_lines):\n", "                            if tb_lineno >= 1 and tb_lineno - 1 < len(orig_lines):\n")),
     silent('index-in-try-except',
